@@ -225,19 +225,19 @@ func corpus() []Case {
 func pipeCorpus() []Case {
 	op := func(s string) GOp { return GOp{Op: s} }
 	return []Case{
-		{Kind: "pipe", Fmt: "ljh22", N: 250, Ops: []GOp{op("S"), {Op: "B", N: 1400}}},
-		{Kind: "pipe", Fmt: "ljh3", N: 250, Ops: []GOp{op("S"), {Op: "B", N: 1400}}},
-		{Kind: "pipe", Fmt: "off", N: 60, Ops: []GOp{op("S"), {Op: "B", N: 1600}}},
+		{Kind: "pipe", Fmt: "ljh22", N: 250, Ops: []GOp{op("S"), {Op: "B", N: 1300}}},
+		{Kind: "pipe", Fmt: "ljh3", N: 250, Ops: []GOp{op("S"), {Op: "B", N: 1300}}},
+		{Kind: "pipe", Fmt: "off", N: 60, Ops: []GOp{op("S"), {Op: "B", N: 1520}}},
 		// ... and through DataPublisher.PublishData
-		{Kind: "pub", Fmt: "pub22", N: 250, Ops: []GOp{op("S"), {Op: "B", N: 1400}}},
-		{Kind: "pub", Fmt: "pub3", N: 250, Ops: []GOp{op("S"), {Op: "B", N: 1400}, op("F"), {Op: "B", N: 7}}},
-		{Kind: "pub", Fmt: "puboff", N: 60, Ops: []GOp{op("S"), {Op: "B", N: 1600}, op("P"), {Op: "B", N: 5}}},
+		{Kind: "pub", Fmt: "pub22", N: 250, Ops: []GOp{op("S"), {Op: "B", N: 1300}}},
+		{Kind: "pub", Fmt: "pub3", N: 250, Ops: []GOp{op("S"), {Op: "B", N: 1300}, op("F"), {Op: "B", N: 7}}},
+		{Kind: "pub", Fmt: "puboff", N: 60, Ops: []GOp{op("S"), {Op: "B", N: 1520}, op("P"), {Op: "B", N: 5}}},
 	}
 }
 
 func gen(seed uint64, tier string) []interface{} {
 	r := lib.NewRng(seed)
-	ngate, ntick, npipe := 150, 6, 3
+	ngate, ntick, npipe := 120, 6, 3
 	if tier == "thorough" {
 		ngate, ntick, npipe = 2000, 40, 27
 	}
